@@ -152,7 +152,15 @@ impl Table {
         if rng.chance(1, 2) { for i in (1..n).rev() { let j = rng.below(i + 1); order.swap(i, j); } }
         let rub = match rng.below(3) { 0 => Rub::None, 1 => Rub::Exact, _ => Rub::Slack(1 + rng.below(4) as isize) };
         let pot = if rng.chance(1, 2) { Some((0..=n).map(|_| (0..s).map(|_| rng.below(4) as isize).collect()).collect()) } else { None };
-        Table { n, s, d, next, cost, v0: rng.range(-3, 3), order, depth_in_state: !(o.depth_free || o.long_arcs), irrelevant, rub, pot: if top_merge { None } else { pot }, rank_seed: rng.next(), top_merge }
+        // one instance in ten lives far away from zero (very negative / very large initial value, costs scaled by 2^40): sums stay
+        // below 2^60 in magnitude, so the reference arithmetic is exact and never meets the NEG sentinel (-2^61)
+        let mut v0 = rng.range(-3, 3);
+        if rng.chance(1, 10) {
+            let sc: isize = 1 << 40;
+            for l in 0..n { for a in 0..s { for x in 0..d { cost[l][a][x] *= sc; } } }
+            v0 = match rng.below(3) { 0 => -(1isize << 55), 1 => 1isize << 55, _ => v0 * sc };
+        }
+        Table { n, s, d, next, cost, v0, order, depth_in_state: !(o.depth_free || o.long_arcs), irrelevant, rub, pot: if top_merge { None } else { pot }, rank_seed: rng.next(), top_merge }
     }
 }
 
